@@ -143,6 +143,11 @@ def commute(a, b):
     return (a, b) if ka <= kb else (b, a)
 
 
+def P(ptr, idx):
+    """Address of element idx of the array ptr points to, the way norm() spells ptr + idx, idx + ptr and &ptr[idx]."""
+    return ("&", ("[]", ptr, idx))
+
+
 def _pow2(n):
     """k if n is the constant 2^k with k >= 1."""
     if isinstance(n, tuple) and n[0] == "c" and isinstance(n[1], int) and n[1] >= 2 and n[1] & (n[1] - 1) == 0:
@@ -235,6 +240,14 @@ def _norm(e):
     if c in ("BinaryOperator", "CompoundAssignOperator"):
         a, b = norm(e.kid(0)), norm(e.kid(1))
         op = e.op
+        if c == "BinaryOperator" and op == "+":
+            # pointer + integer is the address of an element: one spelling for p + i, i + p and &p[i]
+            types = e.func.unit.types
+            ka, kb = (types.get(e.kid(0).ty) or {}).get("kind"), (types.get(e.kid(1).ty) or {}).get("kind")
+            if ka == "ptr" and kb in ("int", "enum", "bool"):
+                return ("&", ("[]", a, b))
+            if kb == "ptr" and ka in ("int", "enum", "bool"):
+                return ("&", ("[]", b, a))
         if c == "BinaryOperator" and op in ("*", "/", "%"):
             t = e.func.unit.types.get(e.ty) or {}
             op, a, b = canon_pow2(op, a, b, unsigned=(t.get("kind") == "int" and t.get("signed") is False))
